@@ -6,7 +6,7 @@ import re
 from hypothesis import strategies as st
 
 from ..campaign import Result
-from ..structural import (SJob, SSched, SPure, is_acyclic, time_limit, Loops, quiet,
+from ..structural import (SJob, SSched, SPure, is_acyclic, bounded, Loops, quiet,
                           STRUCT_ASSUMPTIONS, sparse_edges)
 
 ID = 'C15'
@@ -142,31 +142,33 @@ def check_level(sched, objs, res, where, nontrivial, interleave=False):
     edges = level_edges(objs)
     acyclic = is_acyclic(range(n), edges)
     index = {id(o): i for i, o in enumerate(objs)}
+    def consume():
+        got = []
+        raised = None
+        try:
+            for job in sched.topological_order():
+                got.append(job)
+                if len(got) > n + 2:
+                    break
+                if interleave:
+                    # read-only queries made while the generator is being consumed
+                    # (only nesting topological_order() itself is documented as
+                    # unsupported)
+                    sched.predecessors_upstream(job)
+                    sched.successors_downstream(job)
+                    list(sched.exit_jobs())
+                    list(sched.entry_jobs())
+        except Exception as exc:
+            raised = exc
+        return got, raised
     try:
-        with time_limit(10):
-            got = []
-            raised = None
-            try:
-                for job in sched.topological_order():
-                    got.append(job)
-                    if len(got) > n + 2:
-                        break
-                    if interleave:
-                        # read-only queries made while the generator is being consumed
-                        # (only nesting topological_order() itself is documented as
-                        # unsupported)
-                        sched.predecessors_upstream(job)
-                        sched.successors_downstream(job)
-                        list(sched.exit_jobs())
-                        list(sched.entry_jobs())
-            except Loops:
-                raise
-            except Exception as exc:
-                raised = exc
-    except Loops:
-        res.fail('C15:topological-order-loops', "%s: topological_order() still running "
-                 "after 10 s on %d nodes, edges %s" % (where, n, edges))
-        return
+        got, raised = bounded(consume)
+    except Loops as exc:
+        exc.res = res
+        res.fail('C15:topological-order-loops', "%s: topological_order() does not come back "
+                 "on %d nodes, edges %s (stopped after 1e8 lines executed in the library)"
+                 % (where, n, edges))
+        raise
     if acyclic:
         if raised is not None:
             res.fail('C15:topological-order-raises-on-dag',
@@ -284,11 +286,13 @@ def evaluate_inner(case):
             all_acyclic = all_acyclic and acyc
             want = expected_check(sched, by_sched)
             try:
-                with time_limit(10), quiet():
-                    got = sched.check_cycles()
-            except Loops:
-                res.fail('C15:check-cycles-loops', "%s: check_cycles() runs for ever" % where)
-                continue
+                with quiet():
+                    got = bounded(sched.check_cycles)
+            except Loops as exc:
+                exc.res = res
+                res.fail('C15:check-cycles-loops', "%s: check_cycles() does not come back "
+                         "(stopped after 1e8 lines executed in the library)" % where)
+                raise
             if got is not want:
                 res.fail('C15:check-cycles-wrong',
                          "%s: check_cycles() returned %r, expected %r (own level edges %s, "
@@ -363,6 +367,10 @@ def evaluate(case):
     with user_stack():
         try:
             return evaluate_inner(case)
+        except Loops as exc:
+            from ..campaign import _confirmed_hang
+            _confirmed_hang.append(True)
+            return exc.res
         except RecursionError as exc:
             res = Result()
             res.fail('%s:recursion-error' % ID, "RecursionError with 950 stack frames available "
